@@ -3,6 +3,7 @@ package main
 // Evaluation of contract expressions to SMT terms.
 
 import (
+	"os"
 	"fmt"
 	"sort"
 	"go/constant"
@@ -391,7 +392,7 @@ func (env *SpecEnv) fieldOf(base Value, idx int) Value {
 		if e.v.sliceNormKeys[key] {
 			e.q.markOff0(t)
 		}
-		if env.side != nil && env.cur.probe == nil && !strings.Contains(base.term, "?") {
+		if env.side != nil && env.cur.probe == nil && !strings.Contains(base.term, "?") && os.Getenv("GOVC_NOSIDE") == "" {
 			if fi := e.v.fieldInvs[key]; fi != nil {
 				it, _ := e.fieldInvTerm(env.cur, key, Value{term: t, typ: ft})
 				*env.side = append(*env.side, implies("(not (= "+base.term+" 0))", it))
